@@ -3,6 +3,8 @@
 #include <fstream>
 #include <iostream>
 
+#include "fastscapelib/utils/verif_hooks.hpp"
+
 #include "common.hpp"
 
 namespace vh
@@ -16,6 +18,7 @@ namespace vh
     std::string run_grid_case(const vj::value&);
     std::string run_pool_case(const vj::value&);
     std::string run_adi_case(const vj::value&);
+    std::string run_uf_case(const vj::value&);
 
     std::string run_flow_controlled(const vj::value& c, const std::function<std::string()>& body);
 
@@ -24,6 +27,15 @@ namespace vh
     static std::string dispatch(const vj::value& c)
     {
         const std::string kind = c.get_str("kind", "flow");
+        // knobs of the guarded hooks (case field "knobs"); every case runs in its own process
+        if (c.has("knobs") && c["knobs"].has("low_degree"))
+        {
+#ifdef FSL_VERIF_HAS_KNOBS
+            fastscapelib::verif::boruvka_max_low_degree().store(static_cast<std::size_t>(c["knobs"]["low_degree"].as_int()));
+#else
+            note("knob low_degree not available in this tree: library value used");
+#endif
+        }
         if (kind == "flow" && c.has("ctl"))
             return run_flow_controlled(c, [&] { return dispatch_flow(c); });
         if (kind == "flow")
@@ -34,6 +46,8 @@ namespace vh
             return run_pool_case(c);
         if (kind == "adi")
             return run_adi_case(c);
+        if (kind == "uf")
+            return run_uf_case(c);
         throw std::runtime_error("unknown case kind " + kind);
     }
 
